@@ -6,10 +6,15 @@ inverse pairs).  NOT within deductive reach here, served by bounded stand-ins (l
 functions computing on Python floats (fp_to_parts, sp/dp_to_ieee754, ieee754_to_sp/dp, FPNum.to_float,
 convert_float_to_semp) -- the encoding has no floating-point semantics -- against struct; and the object-allocating
 methods of FPNum (from_ieee754_*, convert, add, sub, mul, compare) and FixedPoint (add, sub, mult) against
-fractions.Fraction / exact integers (the executor has no object allocation: see DESIGN)."""
+fractions.Fraction / exact integers.
+Heap-mode contracts (contracts/fpnum.py, object allocation with a ghost `alloc` set): FPNum.add / sub / mul / neg compute the
+exact rational sum / difference / product / negation of finite operands and compare returns the order of the denoted
+rationals, through the renormalisation steps increase_exponent, increase_precision, set_semp, adjust_semp and the constructor
+(arities 0 and 4), each under its own contract; operands and every other existing object are left untouched.  The rationals
+are abstract in those proofs; the 15 axioms they use are proved as lemmas of real arithmetic (pvc/realsem.py) in every run."""
 import io, contextlib, random, struct, math, time
 from fractions import Fraction
-from pvc import run, work, leaf as L
+from pvc import run, work, leaf as L, heapverify as HV
 from props import common
 
 PROP = 'C12'
@@ -17,6 +22,21 @@ FUNCS = ['IntegerHelper.signed_to_c2', 'IntegerHelper.c2_to_signed', 'IntegerHel
          'FPNum.unpack_ieee754_hp_parts', 'FPNum.pack_ieee754_hp_parts', 'FPNum.unpack_ieee754_sp_parts', 'FPNum.pack_ieee754_sp_parts',
          'FPNum.unpack_ieee754_dp_parts', 'FPNum.pack_ieee754_dp_parts', 'FloatingPointHelper.unpack_ieee754_sp_parts',
          'FloatingPointHelper.unpack_ieee754_dp_parts', 'FloatingPointHelper.pack_ieee754_sp_parts']
+
+
+HEAP_FUNCS = ['FPNum.increase_exponent', 'FPNum.increase_precision', 'FPNum.set_semp', 'FPNum.adjust_semp', 'FPNum.__init__/4',
+              'FPNum.__init__/0', 'FPNum.copy', 'FPNum.add', 'FPNum.sub', 'FPNum.mul', 'FPNum.neg', 'FPNum.compare']
+
+
+def heap_item(qual, timeout_s=30, **kw):
+    import contracts.fpnum   # noqa
+    return HV.verify(HV.HFUNCS[qual], timeout_s)
+
+
+def axiom_item(name, timeout_s=30, **kw):
+    from contracts.fpnum import AXIOMS
+    from pvc import realsem
+    return [realsem.prove_axiom(name, AXIOMS[name], timeout_s)]
 
 
 def _bf(oid, evals, case, expected, got, fn):
@@ -78,8 +98,11 @@ def fpnum(fmt='hp', seed=0, **kw):
             finite.append(v)
     # arithmetic and order, exact
     sample = finite if len(finite) < 400 else rnd.sample(finite, 400)
-    for i in range(0, len(sample) - 1, 2):
-        a, b = sample[i], sample[i + 1]
+    # signed zeros and the smallest / largest finite magnitudes, every ordered pair
+    sign = 1 << (ew + mw); top = (((1 << ew) - 2) << mw) | ((1 << mw) - 1)
+    edge = [0, sign, 1, sign | 1, 1 << mw, sign | (1 << mw), top, sign | top]
+    pairs = [(a, b) for a in edge for b in edge] + [(sample[i], sample[i + 1]) for i in range(0, len(sample) - 1, 2)]
+    for a, b in pairs:
         xa, xb = FPNum(a, fmt), FPNum(b, fmt); va, vb = _value(fmt, a), _value(fmt, b)
         for name, op, want in (('add', lambda: xa.add(xb), va + vb), ('sub', lambda: xa.sub(xb), va - vb), ('mul', lambda: xa.mul(xb), va * vb)):
             evals += 1
@@ -163,16 +186,22 @@ def main(tier, seed, only=None):
     t0 = time.time()
     work._load_contracts()
     items = common.func_items(FUNCS, tier, seed, timeout_s=30)
+    from contracts.fpnum import AXIOMS
+    items += [('props.C12:heap_item', dict(qual=q, timeout_s=30 if tier == 'quick' else 120)) for q in HEAP_FUNCS]
+    items += [('props.C12:axiom_item', dict(name=a, timeout_s=30)) for a in AXIOMS]
     items += [('props.C12:fpnum', dict(fmt=f, seed=seed)) for f in ('hp', 'sp', 'dp')]
     items += [('props.C12:floats', dict(fmt=f, seed=seed)) for f in ('sp', 'dp')] + [('props.C12:fixedpoint', dict(seed=seed))]
     items = common.filter_only(items, only)
     res = run.run_items(items)
     return run.finish(PROP, tier, res, t0, level='proof', seed=seed,
-                      functions=['py4hw/helper.py::' + f for f in FUNCS],
+                      functions=['py4hw/helper.py::' + f for f in FUNCS + HEAP_FUNCS],
                       assumptions=[common.dropped_note(), 'Python ints are mathematical integers',
-                                   'proof level covers the integer helpers and the field packers only; float-valued helpers, FPNum and FixedPoint methods are the bounded parts below (struct / Fraction oracles)',
+                                   'proof level covers the integer helpers, the field packers and the exact arithmetic / order of FPNum (add, sub, mul, neg, compare, constructor, renormalisation); float-valued helpers, FPNum.from_ieee754_* / convert / to_float / div / sqrt / reducePrecision* and FixedPoint methods are the bounded parts below (struct / Fraction oracles)',
+                                   'FPNum contracts: operands are finite well-formed numbers (precision a power of two, mantissa >= 0, sign +-1, not NaN / infinity) -- what the constructors establish; NaN / infinity branches are executed but carry no postcondition; field values are Python ints (isinstance(m, int) taken as true: the model has no floats); termination of the renormalisation loops is not proved (partial correctness)',
+                                   'abstract rationals: val / qadd / qsub / qmul / qneg / qcmp are uninterpreted in the heap proofs; the axioms about them (contracts/fpnum.py::AXIOMS) are proved in real arithmetic under val = s * 2**e * m / p in every run (axiom::*), from three trusted schemata for 2**e (recurrence, strict monotonicity, 2**(a+b) = 2**a * 2**b) and positivity',
+                                   'a new object is distinct from None, from the reference arguments and from every object that existed before (ghost alloc set); mul: products of two symbolic terms are abstracted to an uninterpreted function with sign / unit / commutativity facts',
                                    'FixedPoint formats with zero integer bits are refused by the constructor itself (negative shift): not a legal format'],
-                      bounded_parts=[{'what': 'FPNum from_ieee754 / convert round trip and denoted value: all 65536 half patterns; single / double: every exponent x mantissa boundary set x both signs + 300 random; add / sub / mul / compare on 200 pairs per format against Fraction'},
+                      bounded_parts=[{'what': 'FPNum from_ieee754 / convert round trip and denoted value: all 65536 half patterns; single / double: every exponent x mantissa boundary set x both signs + 300 random; add / sub / mul / compare on 200 pairs per format + all ordered pairs of 8 edge patterns (signed zeros, smallest subnormals / normals, largest finite) against Fraction'},
                                      {'what': 'FloatingPointHelper sp/dp_to_ieee754, ieee754_to_sp/dp, FPNum.to_float against struct on the same pattern sets (signed zeros, subnormals, infinities included)'},
                                      {'what': 'FixedPoint.add/sub/mult raw encodings: exhaustive for formats up to 5 bits, boundary + random pairs for larger ones'}],
-                      canary_ok=work.canary(), min_obligations=30)
+                      canary_ok=work.canary(), min_obligations=200)
